@@ -128,10 +128,10 @@ def oracle_fit(ctx, thorough):
     square = rng.random() < 0.4
     inv = rng.choice(INV)
     if fam == 'edmd':
-        est = lmi.LmiEdmd(alpha=alpha, ratio=ratio, reg_method=reg, inv_method=inv, square_norm=square,
+        est = lmi.LmiEdmd(alpha=lc.num(rng, alpha), ratio=lc.num(rng, ratio), reg_method=reg, inv_method=inv, square_norm=square,
                           solver_params=dict(lc.SOLVER))
     else:
-        est = lmi.LmiDmdc(alpha=alpha, ratio=ratio, reg_method=reg, square_norm=square, solver_params=dict(lc.SOLVER))
+        est = lmi.LmiDmdc(alpha=lc.num(rng, alpha), ratio=lc.num(rng, ratio), reg_method=reg, square_norm=square, solver_params=dict(lc.SOLVER))
     case = {'family': fam, 'reg': reg, 'alpha': alpha, 'ratio': ratio, 'square': square, 'inv': inv if fam == 'edmd' else None,
             'nx': nx, 'nu': nu, 'X': X.tolist(), 'replay': {'rng': snap, 'thorough': thorough}}
     try:
